@@ -61,6 +61,7 @@ type Exec struct {
 	closureID int64
 	global0   map[types.Object]*Term
 	notes     []string
+	fieldAsg  map[types.Object]map[int]bool
 	scopes    []*frameScope
 	retPos    []token.Pos
 	depth     int
